@@ -156,16 +156,39 @@ pub struct Printer {
     names: Vec<String>,
     ngroups: u32,
     last_decimal: bool,
+    escape_names: bool,
 }
 
 impl Printer {
     pub fn print(n: &Node, mode: Mode) -> Vec<u32> {
+        Self::print_opts(n, mode, false)
+    }
+
+    /// `escape_names`: spell the first character of every group name as \uXXXX / \u{...}.
+    pub fn print_opts(n: &Node, mode: Mode, escape_names: bool) -> Vec<u32> {
         let mut names = vec![];
         let mut ng = 0;
         collect(n, &mut names, &mut ng);
-        let mut p = Printer { mode, out: vec![], names, ngroups: ng, last_decimal: false };
+        let mut p = Printer { mode, out: vec![], names, ngroups: ng, last_decimal: false, escape_names };
         p.node(n, Ctx::Top);
         p.out
+    }
+
+    fn name(&mut self, nm: &str) {
+        let mut it = nm.chars();
+        if self.escape_names {
+            if let Some(c) = it.next() {
+                let c = c as u32;
+                if c <= 0xFFFF {
+                    push_str(&mut self.out, &format!("\\u{:04X}", c));
+                } else {
+                    push_str(&mut self.out, &format!("\\u{{{:X}}}", c));
+                }
+            }
+        }
+        for c in it {
+            self.out.push(c as u32);
+        }
     }
 
     fn lit(&mut self, c: u32) {
@@ -369,7 +392,7 @@ impl Printer {
                 self.out.push('(' as u32);
                 if let Some(nm) = name {
                     push_str(&mut self.out, "?<");
-                    push_str(&mut self.out, nm);
+                    self.name(nm);
                     self.out.push('>' as u32);
                 }
                 self.last_decimal = false;
@@ -462,7 +485,7 @@ impl Printer {
                 } else {
                     let nm = self.names[*k as usize % self.names.len()].clone();
                     push_str(&mut self.out, "\\k<");
-                    push_str(&mut self.out, &nm);
+                    self.name(&nm);
                     self.out.push('>' as u32);
                 }
                 self.last_decimal = false;
